@@ -44,7 +44,8 @@ SEL_FZ = "zero_threshold_invisible_keypoint"
 # model flag si_thr0 / td_thr0).  0.0 is the constructor default of SingleInstanceInferenceModel / CentroidCrop /
 # FindInstancePeaks; the predictor classes default to 0.2.
 THRS = {"0.2": (0.2, LN_THR), "0.1": (0.1, F(-2302585, 1000000)), "0.0": (0.0, None)}
-STATE = {"fixed_fz": False}             # does the tree mask an all-zero channel at threshold 0 (F02z repaired)?
+STATE = {"fixed_fz": False,             # does the tree mask an all-zero channel at threshold 0 (F02z repaired)?
+         "fixed_f62": False}            # does SingleInstancePredictor skip a frame whose points are all NaN (C12 F62, fix 8463f22)?
 
 
 def thr_float(c):
@@ -766,10 +767,18 @@ def oracle_case(c, res, provider, fixed_f8, fixed_f7=False):
         preds = res["per_frame"].get(fid, [])
         vis_animals = [a for a in animals if any(p is not None for p in a["kps"])]
         if single:
-            if len(preds) != 1:
-                fails.append((f"frame {fid}: {len(preds)} instances returned by the single-instance model", None, fid))
-                continue
             a = animals[0] if animals else {"kps": [None] * c["n_nodes"]}
+            # a frame without any visible keypoint: C02 has no keypoint to speak about; the number of instances follows
+            # the variant the tree has (C12 F62: one all-NaN instance before fix 8463f22, no instance after) — exactly.
+            # (With threshold 0, no refinement, F02z open, the invisible nodes come back as points: one instance.)
+            nothing = all(p is None for p in a["kps"]) and not zero_thr
+            want = 0 if (nothing and STATE["fixed_f62"]) else 1
+            if len(preds) != want:
+                fails.append((f"frame {fid}: {len(preds)} instances returned by the single-instance model, expected {want}"
+                              + (" (frame without a visible keypoint)" if nothing else ""), None, fid))
+                continue
+            if want == 0:
+                continue
             rec = next((r for r in logs if r["fid"] == fid), None)
             pts, vals, _ = preds[0]
             for k, p in enumerate(a["kps"]):
@@ -1070,16 +1079,20 @@ def evaluate(run, cases, mods, fixed_f8, fixed_f7=False):
                 res = r[prov]
                 if "error" in res:
                     continue
-                gx, gy, meff, mpts, margins = m
+                gx, gy, meff, mpts, margins, ninst = m
                 preds = res["per_frame"].get(fid, [])
                 where = f"{prov} frame {fid}"
-                if len(preds) != 1:
-                    diffs.append(f"{where}: {len(preds)} instances")
+                want = si_instances_model(ninst, c["refinement"])
+                if len(preds) != want:
+                    diffs.append(f"{where}: {len(preds)} instances, model {want}")
                     continue
-                pts, vals, score = preds[0]
-                s_dec = float(c["scale"]) * eff
-                cmp_points(mpts, pts, vals, c["refinement"], c["os"] / (2 * s_dec), margins, where, diffs, stats, ln_thr(c))
-                stats["points_compared"] += len(mpts)
+                if want == 1:
+                    pts, vals, score = preds[0]
+                    s_dec = float(c["scale"]) * eff
+                    cmp_points(mpts, pts, vals, c["refinement"], c["os"] / (2 * s_dec), margins, where, diffs, stats, ln_thr(c))
+                    stats["points_compared"] += len(mpts)
+                else:
+                    stats["frames_without_instance"] = stats.get("frames_without_instance", 0) + 1
                 rec = next((x for x in res["logs"]["single"] if x["fid"] == fid), None)
                 if rec is not None and rec.get("ax"):
                     cmp_affine(gx[0], gx[1], rec, "x", fW, where, diffs)
@@ -1204,6 +1217,27 @@ def detect_fixed_f7(mods):
     return bool(abs(pts[0][0] - 30.0) <= 2.5 and abs(pts[0][1] - 24.0) <= 2.5)
 
 
+def si_instances_model(ninst, refinement):
+    """Instances of one single-instance frame per Decode.si_frame_instances: `ninst` = rendered counts of the repaired
+    variant [without, with integral refinement]; the un-repaired variant always has one."""
+    return int(ninst[1 if refinement else 0]) if STATE["fixed_f62"] else 1
+
+
+def f62_probe():
+    # one frame with a visible node, one frame without any: the second gives 1 all-NaN instance (HEAD afd312c and
+    # before) or no instance (after fix 8463f22)
+    return {"kind": "single", "idx": -6, "H": 64, "W": 64, "mh": None, "mw": None, "variant": "none",
+            "scale": F(1), "ms": 1, "os": 2, "refinement": None, "batch": 2, "n_nodes": 2, "band": False,
+            "n_videos": 1, "thr": "0.2", "frames": [[{"kps": [(F(40), F(24)), None], "cent": (F(32), F(32))}],
+                                                    [{"kps": [None, None], "cent": (F(32), F(32))}]]}
+
+
+def detect_fixed_f62(mods):
+    """Does SingleInstancePredictor drop a frame whose predicted points are all NaN (C12 F62 repaired)?"""
+    res = run_impl(f62_probe(), mods, "VideoReader")
+    return len(res["per_frame"].get(1, [])) == 0 and len(res["per_frame"].get(0, [])) == 1
+
+
 def detect_fixed_fz(mods):
     """Does the tree report NaN for an all-zero channel at peak_threshold 0 (F02z repaired)?"""
     res = run_impl(fz_witness(), mods, "VideoReader")
@@ -1248,6 +1282,9 @@ def check(run: core.Run) -> int:
     fixed_f8, _ = detect_fixed_f8(mods)
     fixed_f7 = detect_fixed_f7(mods)
     STATE["fixed_fz"] = detect_fixed_fz(mods)
+    STATE["fixed_f62"] = detect_fixed_f62(mods)
+    run.notes.append(f"C12 F62 state of the tree: a single-instance frame without any detected node yields "
+                     f"{'no instance (fix 8463f22)' if STATE['fixed_f62'] else 'one all-NaN instance (un-repaired)'}")
     run.notes.append(f"F02z state of the tree: an invisible keypoint (all-zero channel) at peak_threshold 0 without refinement is "
                      f"{'NaN (repaired)' if STATE['fixed_fz'] else 'reported at cell (0, 0) with value 0 (open)'}")
     run.notes.append(f"F7 state of the tree: ground-truth-centroid crops are cut {'after' if fixed_f7 else 'BEFORE'} "
@@ -1263,6 +1300,7 @@ def check(run: core.Run) -> int:
     for f in sorted((core.CORPUS / "C02").glob("*.json")):
         c = case_from_json(json.load(open(f)))
         (co_cases if c["kind"] == "centroid_only" else cases).append(c)
+    cases.append(f62_probe())
     n_single, n_td, n_band = (420, 700, 80) if thorough else (60, 70, 10)
     n_gt = 200 if thorough else 20
     # every stream: the first part with ONE frame size, the last part ("mixed") with a labels file of 2-3 videos of
@@ -1348,6 +1386,8 @@ def replay(run: core.Run, path: str) -> int:
     from omegaconf import OmegaConf
     from sleap_nn.inference import predictors
     mods = (torch, OmegaConf, predictors)
+    STATE["fixed_fz"] = detect_fixed_fz(mods)
+    STATE["fixed_f62"] = detect_fixed_f62(mods)
     rep = json.load(open(path))
     c = case_from_json(rep["case"])
     if c["kind"] == "centroid_only":
@@ -1357,6 +1397,7 @@ def replay(run: core.Run, path: str) -> int:
     fixed_f8, _ = detect_fixed_f8(mods)
     fixed_f7 = detect_fixed_f7(mods)
     STATE["fixed_fz"] = detect_fixed_fz(mods)
+    STATE["fixed_f62"] = detect_fixed_f62(mods)
     out = {}
     bad = False
     res = {}
